@@ -76,7 +76,7 @@ def _simcam_sources(t):
     t.verif("harness/simcam/simcam.cpp")
     t.verif("engine/vsim/vsim.cpp")
     ub = ["-fsanitize=alignment,bounds", "-fno-sanitize-recover=alignment,bounds"]
-    t.repo(DRV + "simcams/simulated.camera.c", ub + EDGE_HOOK)  # fine profile (see _rt_sources)
+    t.repo(DRV + "simcams/simulated.camera.c", ub + EDGE_HOOK + ["-Drealloc=vh_sim_realloc"])  # fine profile (see _rt_sources); allocation failures
     t.repo(DRV + "simcams/imfill.pattern.cpp", ub)
     t.repo(DRV + "simcams/popcount.cpp")
     t.repo(DRV + "simcams/3rdParty/pcg-c-basic-0.9/pcg_basic.c")
